@@ -234,10 +234,11 @@ def run_case(c, case):
             err = float(np.max(np.abs(gm - cm))) if gm.shape == cm.shape else float("inf")
             return err > 1e-9 * (1 + float(np.max(np.abs(cm)))), dict(shape=list(xm.shape), mode=mode, x=xm, ct=cm, vjp=gm, max_abs_err=err)
 
+        vjp_seen = any(v["key"] == kbase + ":vjp" for v in c.violations)
         if jx.lift(gout).shape != tuple(shape):
-            c.fail_concrete(f"{tag}: VJP shape", dict(got=list(jx.lift(gout).shape)), key=kbase + ":vjp")
-        else:
-            c.prove_eq(f"{tag}: vjp(ct)==ct", gout, ct, (), replay_vjp, key=kbase + ":vjp")
+            _fail_once(c, f"{tag}: VJP shape", dict(got=list(jx.lift(gout).shape)), key=kbase + ":vjp")
+        elif not vjp_seen:
+            c.prove_eq(f"{tag}: vjp(ct)==ct", gout, ct, (), replay_vjp, key=kbase + ":vjp", chunk=max(1, ct.size))
             # same statement through jax.grad of a weighted sum (second route into the AD rules)
             h = lambda x, w, f=f: jax.grad(lambda y: jnp.sum(w * f(y)))(x)
             hout, _ = jx.call(h, x, ct)
@@ -248,7 +249,8 @@ def run_case(c, case):
                 err = float(np.max(np.abs(gm - cm)))
                 return err > 1e-9 * (1 + float(np.max(np.abs(cm)))), dict(shape=list(xm.shape), mode=mode, x=xm, w=cm, grad=gm, max_abs_err=err)
 
-            c.prove_eq(f"{tag}: grad sum(w*f)==w", hout, ct, (), replay_grad, key=kbase + ":vjp")
+            if not any(v["key"] == kbase + ":vjp" for v in c.violations):
+                c.prove_eq(f"{tag}: grad sum(w*f)==w", hout, ct, (), replay_grad, key=kbase + ":vjp", chunk=max(1, ct.size))
 
         # 4. vacuity twins: the transform is not the identity, and the forward claim is falsifiable in principle
         if not twin_done:
